@@ -313,20 +313,53 @@ def c02_reference_encode(x=0, s=""):
     return {"violates": [_obs(b) for b in back] != [_obs(r)], "read": repr(back)[:300]}
 
 
-def c02_compat(extra=1, bare=False):
+def c02_refused_then_written():
+    from flow.record import RecordDescriptor
+    from flow.record.stream import RecordStreamWriter
+
+    DL = RecordDescriptor("c02/dl", [("dictlist", "dl"), ("varint", "n")])
+    fp = io.BytesIO()
+    w = RecordStreamWriter(fp)
+    try:
+        w.write(DL(dl=[{"k": {1, 2}}], n=1))
+        return {"violates": True, "detail": "an unpackable record was written"}
+    except Exception:
+        pass
+    w.write(DL(dl=[{"k": "v"}], n=2))
+    w.flush()
+    try:
+        events = R.decode_stream(fp.getvalue())  # the independent decoder: raises when a record's descriptor was never announced
+    except Exception as e:
+        return {"violates": True, "detail": f"the independent decoder cannot decode the stream: {type(e).__name__}: {e}"}
+    known, recs = set(), []
+    for e in events:
+        if e[0] == "DESC":
+            known.add(e[1])
+        elif e[0] == "REC":
+            recs.append(e)
+            if e[1] not in known:
+                return {"violates": True, "detail": f"a record frame of type {e[1]!r} is in the stream, its descriptor frame is not: an independent decoder cannot decode it"}
+    ok = len(recs) == 1
+    return {"violates": not ok, "detail": None if ok else f"decoded events {events!r:.300}"}
+
+
+def c02_compat(extra=1, bare=False, grouped=False):
     D, r, vals = _one(5, "v")
     h = W.descriptor_hash("c02/rec", [("varint", "n"), ("string", "s")])
     if extra == -1:
         v = vals[:-1]
     else:
         v = vals[:-1] + [f"extra{i}" for i in range(extra)] + [1]
-    data = R.encode_stream([("DESC", "c02/rec", (("varint", "n"), ("string", "s"))), ("REC", "c02/rec", None if bare else h, v)])
+    rec_event = ("GROUPED", "c02/grp", [("c02/rec", h, v)]) if grouped else ("REC", "c02/rec", None if bare else h, v)
+    data = R.encode_stream([("DESC", "c02/rec", (("varint", "n"), ("string", "s"))), rec_event])
     try:
         back = _read(data)
+        if grouped:
+            back = list(back[0].records) if len(back) == 1 else []
     except Exception as e:
         return {"violates": True, "detail": f"{type(e).__name__}: {e}"}
     ok = len(back) == 1 and back[0].n == 5 and back[0].s == "v" and back[0]._generated == GEN and back[0]._source is None and (extra == -1 or back[0]._version == 1)
     return {"violates": not ok, "read": repr(back), "version": repr(getattr(back[0], "_version", None)) if back else None}
 
 
-CALLS = {"c02_history_sweep": c02_history_sweep, "c02_golden": c02_golden, "c02_make_golden": c02_make_golden, "c02_reference_sweep": c02_reference_sweep, "c02_reference_decode": c02_reference_decode, "c02_reference_encode": c02_reference_encode, "c02_compat": c02_compat}
+CALLS = {"c02_refused_then_written": c02_refused_then_written, "c02_history_sweep": c02_history_sweep, "c02_golden": c02_golden, "c02_make_golden": c02_make_golden, "c02_reference_sweep": c02_reference_sweep, "c02_reference_decode": c02_reference_decode, "c02_reference_encode": c02_reference_encode, "c02_compat": c02_compat}
